@@ -3,7 +3,7 @@ from .. import core, ref, vals, pts
 from ..core import hx, lst
 from ..ref import P, L, to32, le
 
-REQUIRED = ['heap:msm', 'heap:rs-msm', 'heap:batchinv', 'heap:batchinv-zero', 'heap:unwind-points', 'heap:unwind-scalars', 'heap:inexact-hint', 'drop:unwinding', 'heap:control-vartime', 'drop:signingkey', 'drop:expandedsecretkey',
+REQUIRED = ['heap:msm', 'heap:rs-msm', 'heap:batchinv', 'heap:batchinv-zero', 'heap:unwind-points', 'heap:unwind-scalars', 'heap:inexact-hint', 'drop:unwinding', 'zeroize:computed', 'heap:control-vartime', 'drop:signingkey', 'drop:expandedsecretkey',
             'drop:ephemeral', 'drop:reusable', 'drop:static', 'drop:shared', 'drop:boxed', 'zeroize']
 
 
@@ -199,7 +199,23 @@ def drops(ctx, n, stats):
     for _ in range(max(2, n // 2)):
         p = vals.Pt(rng.randrange(1, L), rng.randrange(8))
         ctx.add('sc.zeroize', cs(rng.randrange(L)), expect=[z], cls='zeroize')
-        ctx.add('ed.zeroize', p.tok(), p.tok(), expect=pts.both(pts.expect_ed(ref.IDENT), pts.tok_is(2, to32(1).hex())), cls='zeroize')
+        ctx.add('ed.zeroize', p.tok(), p.tok(), expect=pts.both(pts.expect_ed(ref.IDENT), pts.tok_is(2, to32(1).hex()), pts.raw_is_identity_rep(1)),
+                cls='zeroize')
+        # values held in a computed representation (Z != 1), in particular neutral elements s*P - s*P whose Y = Z depend on
+        # the secret: the stored coordinates must become exactly (0 : 1 : 1 : 0)
+        ctx.block()
+        k_ = rng.randrange(1, L)
+        r1 = ctx.add('ed.mul', p.tok(), cs(k_), cls='zeroize')
+        r2 = ctx.add('ed.sub', ctx.ref(r1, 1), ctx.ref(r1, 1), expect=pts.expect_ed(ref.IDENT), cls='zeroize')
+        for src in (ctx.ref(r2, 1), ctx.ref(r1, 1)):
+            ctx.add('ed.zeroize', src, p.tok(), expect=pts.both(pts.expect_ed(ref.IDENT), pts.raw_is_identity_rep(1)), cls=['zeroize', 'zeroize:computed'])
+        q2 = vals.Pt(p.a, 0)
+        r3 = ctx.add('rs.mul', 'e' + q2.tok(), cs(k_), cls='zeroize')
+        r4 = ctx.add('rs.sub', ctx.ref(r3, 1), ctx.ref(r3, 1), expect=pts.expect_rs(ref.IDENT), cls='zeroize')
+        for src in (ctx.ref(r4, 1), ctx.ref(r3, 1)):
+            ctx.add('rs.zeroize', 'e' + src, ref.ristretto_encode(q2.affine()).hex(),
+                    expect=pts.both(pts.expect_rs(ref.IDENT), pts.raw_is_identity_rep(1)), cls=['zeroize', 'zeroize:computed'])
+        ctx.block()
         q = vals.Pt(p.a, 0)
         ctx.add('rs.zeroize', 'e' + q.tok(), ref.ristretto_encode(q.affine()).hex(),
                 expect=pts.both(pts.expect_rs(ref.IDENT), pts.tok_is(2, z)), cls='zeroize')
@@ -234,8 +250,9 @@ def run(prop, tier, seed, t0):
     import random as _r
     rs = _r.Random(seed * 7919 + 17)
     drawn = (rs.randrange(9, 64), rs.randrange(65, 128), rs.randrange(129, 190), rs.randrange(191, 400))
-    groups = ([(1, 2, 3, 8), (64,), (5, 33), (127, 128), (190,), drawn[:2], drawn[2:]] if q else
-              [(1, 2, 3, 8), (64,), (200,), (5, 33), (16, 100), (7, 129), (256,), (127, 128), (190, 191), drawn[:2], drawn[2:], (512,)] * 8)
+    big = (rs.randrange(1025, 1300), rs.randrange(4097, 4700))      # beyond plausible internal block sizes (1024, 4096)
+    groups = ([(1, 2, 3, 8), (64,), (5, 33), (127, 128), (190,), drawn[:2], drawn[2:], big[:1], big[1:]] if q else
+              [(1, 2, 3, 8), (64,), (200,), (5, 33), (16, 100), (7, 129), (256,), (127, 128), (190, 191), drawn[:2], drawn[2:], (512,)] * 8 + [big[:1], big[1:], (8193,)])
     for i, sz in enumerate(groups):
         for c in cb:
             tasks.append(('vlib.props.c14', 'task', prop, seed * 1000 + i, 6 if q else 60, [c], {'sizes': sz}))
